@@ -18,6 +18,9 @@ pub struct Case {
     /// a stale Codable.swift from an earlier run is present
     pub stale_codable: bool,
     pub position: u8,
+    /// case of the Python folder-mode family
+    #[serde(default)]
+    pub python: bool,
 }
 
 fn unit_item(k: usize, position: u8) -> Item {
@@ -50,7 +53,7 @@ impl SubCheck for C12Cli {
         (ws::cli_items(2, 6), ws::slots(2..=4, 2..=5), proptest::collection::vec(0usize..5, 8), proptest::collection::vec(prop_oneof![2 => Just(false), 1 => Just(true)], 5), any::<bool>(), any::<u8>())
             .prop_map(|(items, slots, assign, unit_in, stale_codable, position)| {
                 let items: Vec<Item> = items.into_iter().filter(|i| !matches!(i.kind, Kind::Const { .. })).collect();
-                Case { ws: ws::distribute(items, &slots, &assign), unit_in, stale_codable, position }
+                Case { ws: ws::distribute(items, &slots, &assign), unit_in, stale_codable, position, python: false }
             })
             .boxed()
     }
@@ -132,6 +135,96 @@ impl SubCheck for C12Cli {
     }
 }
 
+/// Python folder mode: one module per crate, written one after the other by the same back-end instance. Every module has
+/// to import or define the helper names it uses itself - whatever an earlier module needed.
+pub struct C12CliPy;
+impl SubCheck for C12CliPy {
+    type Case = Case;
+    fn name(&self) -> &'static str {
+        "c12-cli-python"
+    }
+    fn strategy(&self, tier: Tier) -> BoxedStrategy<Case> {
+        C12Cli
+            .strategy(tier)
+            .prop_map(|mut c| {
+                c.python = true;
+                c
+            })
+            .boxed()
+    }
+    fn eval(&self, run: &Run, c: &Case, w: &mut Worker, counting: bool) -> Vec<Violation> {
+        let mut out = vec![];
+        let mut wsx = c.ws.clone();
+        // `unit_in` selects the crates that get a datetime-carrying item (and, by position, an Optional / aliased field)
+        for (k, f) in wsx.files.iter_mut().enumerate() {
+            if c.unit_in.get(k).copied().unwrap_or(false) {
+                let mut fields = vec![Field::new("stamped_at", Ty::DateTime)];
+                if (c.position as usize + k) % 2 == 0 {
+                    fields.push(Field::new("maybe_later", Ty::Opt(Box::new(Ty::DateTime))));
+                }
+                f.items.push(Item::new(&format!("Stamped{k}"), Kind::Struct { shape: Shape::Named(fields), rename_all: None }));
+            }
+        }
+        wsx.files.retain(|f| !f.items.is_empty());
+        if wsx.files.is_empty() {
+            return out;
+        }
+        let root = cli::fresh_dir(&w.scratch, "c12py");
+        let tree = root.join("tree");
+        cli::write_tree(&tree, &wsx.tree());
+        let outd = root.join("out");
+        std::fs::create_dir_all(&outd).unwrap();
+        let mut args = cli::lang_args(Lang::Python, &Cfg::plain());
+        args.extend(["-d".into(), outd.to_string_lossy().into_owned(), tree.to_string_lossy().into_owned()]);
+        let r = cli::run(&args, &root, &[], Duration::from_secs(20));
+        let with_dt: Vec<String> = wsx.files.iter().filter(|f| f.items.iter().any(|i| i.name.starts_with("Stamped"))).map(|f| Workspace::crate_name_of(&f.crate_dir)).collect();
+        let crates = wsx.crates();
+        if counting {
+            run.label(&format!("c12py/crates={}/with-datetime={}", crates.len().min(4), with_dt.len().min(3)));
+            if crates.len() >= 2 && !with_dt.is_empty() && with_dt.len() < crates.len() {
+                run.nontrivial(hash_of(&(serde_json::to_string(&wsx).unwrap_or_default(),)));
+            }
+        }
+        if !r.ok() {
+            if counting {
+                run.label(&format!("c12py/not-generated/exit={:?}", r.code));
+            }
+            let _ = std::fs::remove_dir_all(&root);
+            return out;
+        }
+        let generic_names: Vec<String> = wsx.all_items().iter().flat_map(|i| i.generics.iter().cloned()).collect();
+        let gref: Vec<&String> = generic_names.iter().collect();
+        for (name, bytes) in cli::read_tree(&outd) {
+            if !name.ends_with(".py") {
+                continue;
+            }
+            let text = String::from_utf8_lossy(&bytes).into_owned();
+            let Ok(obs) = crate::observe::observe(Lang::Python, &text, w, false) else {
+                if counting {
+                    run.label("c12py/unobservable");
+                }
+                continue;
+            };
+            let Some(py) = &obs.py else { continue };
+            let stem = name.trim_end_matches(".py").to_string();
+            let own_dt = with_dt.iter().any(|c| crate::prog::norm(c) == crate::prog::norm(&stem));
+            for (n, pos) in crate::c09_12::python_missing_helpers(&py.raw, &obs.file, &gref) {
+                out.push(Violation::new(
+                    format!("python-folder/name-not-imported-or-defined/{n}/{pos}/{}", if own_dt { "module-uses-datetime-itself" } else { "module-without-datetime-after-one-with" }),
+                    format!("python folder mode: `{name}` uses `{n}` ({pos}) but neither imports nor defines it (modules: {:?}, with datetime: {:?})", crates, with_dt),
+                ));
+            }
+        }
+        let _ = std::fs::remove_dir_all(&root);
+        out.sort_by(|a, b| a.sig.cmp(&b.sig));
+        out.dedup_by(|a, b| a.sig == b.sig);
+        out
+    }
+    fn render(&self, c: &Case) -> serde_json::Value {
+        json!({"python_folder_mode": true, "unit_in": c.unit_in, "files": c.ws.tree().iter().map(|(p, t)| json!({"path": p, "content": String::from_utf8_lossy(t)})).collect::<Vec<_>>()})
+    }
+}
+
 pub fn run_cli_family(run: &Run) {
     if !cli::bin_available() {
         run.inconclusive("typeshare binary not built");
@@ -139,8 +232,13 @@ pub fn run_cli_family(run: &Run) {
     }
     replay_regress(run, &C12Cli);
     search(run, &C12Cli, run.tier.pick(300, 3000));
+    replay_regress(run, &C12CliPy);
+    search(run, &C12CliPy, run.tier.pick(200, 2000));
 }
 
 pub fn replay(run: &Run, case: &serde_json::Value) -> Result<Vec<Violation>, String> {
+    if case.get("python").and_then(|p| p.as_bool()) == Some(true) {
+        return replay_case(run, &C12CliPy, case);
+    }
     replay_case(run, &C12Cli, case)
 }
